@@ -77,6 +77,7 @@ func runC19(c *Ctx) {
 	trackMapKeys(c, "R4")
 	blocklistLooksAtBaseName(c, "R5")
 	lineEndingFallsBack(c, "R4")
+	noLoopCarriedFlagInTrack(c, "R5")
 	// ---- R1 escape coverage -----------------------------------------------------------------------
 	pats, pos, ok := stringMapGlobal(p, "commands", "trackEscapePatterns")
 	globs, gpos, ok2 := stringSliceGlobal(p, "commands", "trackEscapeStrings")
